@@ -159,9 +159,31 @@ const forbiddenOnDest = syscall.IN_MODIFY | syscall.IN_CLOSE_WRITE | syscall.IN_
 // enumerated.
 func CheckAtomicHistory(evs []FSEvent, destDir, destName string) (replaced bool, crashPoints int, err error) {
 	crashPoints = len(evs) + 1
+	// What is renamed onto the destination must be a file written during this
+	// save: one that was created, and then moved away, under the eyes of the
+	// watcher (next to the destination or in the staging directory).  A file
+	// that comes from elsewhere -- an old file of another format, say -- makes
+	// the destination hold something that is neither the previous nor the new
+	// version.
+	created := map[string]bool{}
+	movedAway := 0
 	for i, e := range evs {
 		if e.Dir != destDir || e.Name != destName {
+			switch {
+			case e.Mask&syscall.IN_CREATE != 0:
+				created[e.Dir+"/"+e.Name] = true
+			case e.Mask&syscall.IN_MOVED_FROM != 0 && created[e.Dir+"/"+e.Name]:
+				movedAway++
+			}
+
 			continue
+		}
+		if e.Mask&syscall.IN_MOVED_TO != 0 {
+			if movedAway == 0 {
+				return replaced, crashPoints, fmt.Errorf("event %d of %d: the destination was replaced by a file that was not written during this save "+
+					"(no file created under observation was moved away before): %s (history: %s)", i, len(evs), e, HistoryString(evs))
+			}
+			movedAway--
 		}
 		if e.Mask&forbiddenOnDest != 0 {
 			return replaced, crashPoints, fmt.Errorf("event %d of %d on the destination is not atomic: %s (history: %s)",
